@@ -12,6 +12,18 @@ META = {
         "text": "Bounded symbolic model checking of the real checkOnce/T/customGen code: the property function is an interpreter over a symbolic opcode program, so the solver chooses the program (failure kind x callback context) as well as the data; for every program within the bound the invocation is classified as failed iff a failure signal was raised. One inductive step on the funnel every invocation goes through.",
         "note": _ENGINE_NOTE,
     },
+    "C05": {
+        "text": "compareData is shown to be the strict length-then-lexicographic order on all buffers up to 3 words (reference definition, antisymmetry, transitivity), and one inductive step on the real shrinker.accept from every state a run can produce shows: an accepted candidate is strictly smaller, fails at the same site (traceback), and replays to the same error; a rejected candidate changes nothing. shrink()'s passes change state only through accept, so the step covers any number of rounds and any deadline; well-foundedness of short-lex is a stated mathematical fact.",
+        "note": _ENGINE_NOTE,
+    },
+    "C09": {
+        "text": "Bounded symbolic model checking of the real findBug loop and checkTB verdict: for N up to 2/3 and every pass/skip/fail outcome sequence chosen by the solver, exactly N valid cases are run (or exactly 10*N skipped), nothing runs after the first falsified case, fewer than N valid cases fails with Errorf, and every failure ends in FailNow. Bounded in N (no inductive cut-point); the early-exit-near-deadline branch is assumed not taken.",
+        "note": _ENGINE_NOTE,
+    },
+    "C13": {
+        "text": "Bounded symbolic model checking of the real checkFuzz on symbolic byte strings of every length up to 17/25 with a symbolic property program: the draws equal those of a replay of the little-endian reference decoding, the outcome map {pass, SkipNow, Fatalf} matches what the property signalled, no run-time panic escapes, and appending unconsumed bytes changes neither outcome nor draws (2-run self-composition).",
+        "note": _ENGINE_NOTE,
+    },
     "C10": {
         "text": "Bounded symbolic model checking of checkOnce/T.cleanup/T.Context/customGen.maybeValue: for every symbolic program (any way of ending, nested cleanup registration, Custom callbacks) the context is live in the body and cancelled before cleanups, every cleanup runs exactly once, and nothing is left on the T.",
         "note": _ENGINE_NOTE,
